@@ -6,7 +6,8 @@ Case format (sx):  [path, tr, lock, labels, second]        (decoded by coq/Run/C
          7 teardown after the request handler called client.aclose()
   tr     [0, base] | [1, [standard_compatible, unwrap_points, handshake_points], base]
   base   [0, leaf, m] (in-memory leaf transport whose aclose has m suspension points) | [1, send_half, recv_half]
-         [0, leaf, 0, 1] = the real AsyncioTransportStreamSocketAdapter over a loopback TCP pair (fd observed)
+         [0, leaf, 0, 1] = the real AsyncioTransportStreamSocketAdapter over a loopback TCP pair (fd observed);
+         [0, leaf, 0, 2] = the same with 16 MiB of unflushed data and a silent peer; [0, leaf, 0, 3] = peer reset just before
   lock   1: a sender task is suspended in the leaf's send_all, holding the send lock and the send guard
   labels outcome at each suspension point reached, in order: 0 completes, 1 raises OSError, 2 the closing task is
          cancelled, 3 the enclosing timed scope (TLS shutdown / handshake timeout) expires
@@ -516,8 +517,9 @@ def run_case(inp, trace=None, cancel_at=None, info=None):
 
         async def abuild(b):
             if b[0] == 0:
-                if len(b) > 3 and b[3] in (1, 2):
+                if len(b) > 3 and b[3] in (1, 2, 3):
                     lf = AdapterLeaf(b[1], backlog=(b[3] == 2))
+                    lf.reset_before_close = (b[3] == 3)
                     leafs[b[1]] = lf
                     return await lf.open(backend)
                 lf = Leaf(world, backend, b[1], b[2], sock=csock, peer=peer)
@@ -531,6 +533,12 @@ def run_case(inp, trace=None, cancel_at=None, info=None):
 
         counter = [0]
         holder_closing = [lambda: False]
+
+        def apply_resets():
+            # the peer has reset the connection and the loop has not noticed yet: write_eof() fails with ENOTCONN
+            for lf in leafs.values():
+                if isinstance(lf, AdapterLeaf) and getattr(lf, "reset_before_close", False):
+                    lf.reset_peer()
 
         def drive(task, is_main=True):
             """Run until the task is done, resolving each suspension point with the next label."""
@@ -705,6 +713,7 @@ def run_case(inp, trace=None, cancel_at=None, info=None):
                         holder["sender"] = loop.create_task(a.send_packet("x"))
                         await world.on_sender_armed.wait()
                     world.scripting = True
+                    apply_resets()
                     await a.aclose()
                 return
                 yield       # pragma: no cover  (makes this an async generator)
@@ -726,6 +735,8 @@ def run_case(inp, trace=None, cancel_at=None, info=None):
             assert world.sender_fut not in (None, "arm"), "sender did not suspend"
         world.scripting = True
         holder_closing[0] = obj_is_closing
+        if path != 7:
+            apply_resets()
         task = loop.create_task(closer())
         exc = drive(task)
         if info is not None:
@@ -856,6 +867,8 @@ def shapes(thorough):
     out += [[0, [0, 0, 0, 1]], [0, [1, [0, 0, 0, 1], [0, 1, 0, 1]]], [0, [1, [0, 0, 1], [0, 1, 0, 1]]]]
     # ... with unflushed write data and a peer that is not reading (close waiter = one environment-driven suspension)
     out += [[0, [0, 0, 0, 2]], [0, [1, [0, 0, 0, 2], [0, 1, 1]]]]
+    # ... whose peer has just reset the connection (write_eof() raises ENOTCONN, swallowed; modelled like the plain adapter)
+    out += [[0, [0, 0, 0, 3]], [0, [1, [0, 0, 0, 3], [0, 1, 1]]]]
     for b in ([0, 0, 0], [0, 0, 1], [0, 0, 2], [1, [0, 0, 1], [0, 1, 1]]):
         for std, up in ((1, 2), (1, 1), (1, 0), (0, 0)):
             out.append([1, [std, up, 0], b])
